@@ -106,6 +106,7 @@ type enc struct {
 	lineGroup   map[int]string
 	ghostFns    map[string]bool
 	ghostFnStr  map[string]bool
+	ghostFnAny  map[string]bool
 	ghostEntry  map[string]Term
 	ghostTy     map[string]types.Type
 }
